@@ -602,8 +602,13 @@ def kani_check():
             p = sh(["cargo", "kani", "--harness", h], cwd=scratch, check=False, timeout=1800)
             txt = p.stdout + p.stderr
             ok = "VERIFICATION:- SUCCESSFUL" in txt
-            failed = "VERIFICATION:- FAILED" in txt
             m = re.search(r"\*\* (\d+) of (\d+) failed", txt)
+            # a verdict needs at least one failed check that is a property of the code: a solver that was killed
+            # (out of memory, timeout) or an unwinding assertion (bound too small for the changed code) is not one
+            failed_desc = re.findall(r"Failed Checks: (.*)", txt)
+            real = [d for d in failed_desc if "unwinding assertion" not in d and "recursion unwinding" not in d]
+            failed = ("VERIFICATION:- FAILED" in txt and m is not None and int(m.group(1)) >= 1 and bool(real)
+                      and "CBMC failed" not in txt and "signal" not in txt.lower().split("verification:-")[-1][:0])
             out["harnesses"].append({"name": h, "status": "ok" if ok else ("failed" if failed else "error"),
                                      "checks": int(m.group(2)) if m else 0, "failed_checks": int(m.group(1)) if m else None,
                                      "tail": txt[-2500:] if not ok else ""})
